@@ -4,7 +4,7 @@
 // libraries; every call into the code under test runs in a child process (c17_guard.h) so that a
 // sanitizer report, a crash or a hang becomes an OUTCOME of the input that caused it.
 //   c17_keyparser replay    <gen.ndjson> <out.ndjson>      part (a): TLC-generated line sequences
-//   c17_keyparser hdr       <workdir> <out.ndjson> <level>  part (b): mutated library-written headers
+//   c17_keyparser hdr       <workdir> <out.ndjson> <level> [<reader> [<part> <nparts>]]  part (b): mutated library-written headers
 //   c17_keyparser roundtrip <out.ndjson>                   part (c): parameter_info -> parse -> parameter_info
 #include "c17_guard.h"
 #include "vh_stir.h"
@@ -288,7 +288,7 @@ static std::string run_reader(const std::string& reader, const std::string& path
   return obs_pd(th ? nullptr : pd.get(), th ? "error" : (pd ? "accepted" : "null"), msg);
 }
 
-static int hdr_mode(const std::string& work, const std::string& outpath, int level, const std::string& only) {
+static int hdr_mode(const std::string& work, const std::string& outpath, int level, const std::string& only, int part, int nparts) {
   std::vector<HdrCase> cases;
   auto finish_case = [&](HdrCase& c, const std::string& hdrfile) {
     c.lines = read_lines(c.dir + "/" + hdrfile, c.nl);
@@ -346,7 +346,8 @@ static int hdr_mode(const std::string& work, const std::string& outpath, int lev
   for (size_t ci = 0; ci < cases.size(); ++ci)
     for (size_t ri = 0; ri < cases[ci].readers.size(); ++ri) {
       if (!only.empty() && cases[ci].readers[ri] != only) continue;
-      for (size_t mi = 0; mi < cases[ci].muts.size(); ++mi) items.push_back({ (int)ci, (int)ri, (int)mi });
+      for (size_t mi = 0; mi < cases[ci].muts.size(); ++mi)
+        if ((long)mi % nparts == part) items.push_back({ (int)ci, (int)ri, (int)mi });
     }
   auto hdrline = [&](const HdrCase& c) {
     return "{\"e\":\"Hdr\",\"hid\":" + std::to_string(c.hid) + ",\"kind\":" + c17::jstr(c.kind) + ",\"datafile\":" + c17::jstr(c.datafile) + ",\"datalen\":" + std::to_string(c.datalen)
@@ -355,7 +356,8 @@ static int hdr_mode(const std::string& work, const std::string& outpath, int lev
   auto head = [&](long k) {
     const HdrCase& c = cases[items[k].c];
     const Mutation& m = c.muts[items[k].m];
-    std::string pre = (items[k].m == 0) ? hdrline(c) : "";     // (a case's Hdr line is repeated per reader: harmless)
+    // the Hdr line of a case precedes its first item (repeated per reader and per part: harmless)
+    std::string pre = (k == 0 || items[k - 1].c != items[k].c) ? hdrline(c) : "";
     return pre + "{\"e\":\"Mut\",\"hid\":" + std::to_string(c.hid) + ",\"reader\":" + c17::jstr(c.readers[items[k].r]) + ",\"mut\":" + c17::jstr(m.kind) + ",\"at\":"
            + std::to_string(m.at) + ",\"keep\":" + std::to_string(m.keep) + ",\"skip\":" + std::to_string(m.skip) + ",\"fresh\":" + c17::jarr(m.fresh) + ",\"nl\":"
            + (m.nl ? "true" : "false") + ",";
@@ -468,7 +470,7 @@ int main(int argc, char** argv) {
   const std::string mode = argv[1];
   if (mode == "replay" && argc >= 4) return replay(argv[2], argv[3]);
   if (mode == "roundtrip" && argc >= 3) return roundtrip(argv[2]);
-  if (mode == "hdr" && argc >= 5) return hdr_mode(argv[2], argv[3], atoi(argv[4]), argc >= 6 ? argv[5] : "");
+  if (mode == "hdr" && argc >= 5) return hdr_mode(argv[2], argv[3], atoi(argv[4]), argc >= 6 ? argv[5] : "", argc >= 8 ? atoi(argv[6]) : 0, argc >= 8 ? atoi(argv[7]) : 1);
   fprintf(stderr, "usage: c17_keyparser replay|hdr|roundtrip ...\n");
   return 2;
 }
